@@ -1,6 +1,7 @@
 package main
 
 import (
+	"reflect"
 	"go/constant"
 	"go/token"
 	"go/types"
@@ -560,6 +561,11 @@ func alwaysFollowedBy(a ssa.Instruction, events []ssa.Instruction, sameIteration
 		}
 		if isExitBlock(b) {
 			if okExit != nil && okExit(b) {
+				continue
+			}
+			// "error returns are fine": a single `return err` of a result variable is an error return on the
+			// paths that enter it with a non-nil value
+			if okExit != nil && reflect.ValueOf(okExit).Pointer() == reflect.ValueOf(isErrorReturnBlock).Pointer() && errorReturnOnPath(n) {
 				continue
 			}
 			w, _ := bad(n)
